@@ -38,14 +38,30 @@ def load_known():
     return {k['key']: k for k in d.get('known', [])}
 
 
-def run_rules(prop, config='rel', repo=None):
-    F = facts.load(config, repo)
+def _run_view(prop, config, repo, view):
+    F = facts.load(config, repo, view=view)
     ctx = Ctx(F, prop)
+    ctx.view = view
     mod = importlib.import_module('xl.rules_%s' % prop.lower())
     try:
         mod.run(ctx)
     except Exception as e:  # a crashing rule is a broken check, never a silent pass
         ctx.fail('ENGINE', '-', 'exception', '-', 'rule engine raised %s: %s' % (type(e).__name__, e), path=traceback.format_exc())
+    return ctx, mod
+
+
+def run_rules(prop, config='rel', repo=None):
+    """Evaluate the property's rules on the plain view; if some obligation is not discharged there, evaluate them
+    again on the desugared view (Option/Result combinators written out as matches, xl/inline.py).  Both views
+    represent the same program and every rule fails closed, so a view on which every obligation is discharged decides
+    the property; otherwise the plain view's report stands."""
+    ctx, mod = _run_view(prop, config, repo, 'plain')
+    if any(r['verdict'] == 'fail' for r in ctx.results):
+        ctx2, _ = _run_view(prop, config, repo, 'desugared')
+        if not any(r['verdict'] == 'fail' for r in ctx2.results):
+            ctx2.info('VIEW', '-', '-', 'decided on the desugared view (%d combinator sites expanded); the plain view left %d obligation(s) open' % (
+                getattr(ctx2.F, 'n_desugared', 0), sum(1 for r in ctx.results if r['verdict'] == 'fail')))
+            return ctx2, mod
     return ctx, mod
 
 
